@@ -345,6 +345,7 @@ theorem stepOp_inv (A : Arith α) {h h' : Heap α} (hi : HeapInv h) {op : Op α}
   case acomb a b =>
     obtain ⟨x, _, hs⟩ := bind_ok.mp hs
     obtain ⟨y, _, hs⟩ := bind_ok.mp hs
+    obtain ⟨c, _, hs⟩ := bind_ok.mp hs
     cases hs; exact inv_newAddr hi _
   case aget a n =>
     obtain ⟨x, _, hs⟩ := bind_ok.mp hs
@@ -382,6 +383,7 @@ theorem stepOp_inv (A : Arith α) {h h' : Heap α} (hi : HeapInv h) {op : Op α}
     obtain ⟨y, _, hp'⟩ := bind_ok.mp hp'
     obtain ⟨z, _, hp'⟩ := bind_ok.mp hp'
     obtain ⟨w, _, hp'⟩ := bind_ok.mp hp'
+    obtain ⟨c, _, hp'⟩ := bind_ok.mp hp'
     exact inv_mkVars (inv_newAddr hi _) hp'
   case tnew v l =>
     obtain ⟨p, hp', hs⟩ := bind_ok.mp hs
@@ -423,10 +425,10 @@ theorem stepOp_inv (A : Arith α) {h h' : Heap α} (hi : HeapInv h) {op : Op α}
     split at hx
     · cases hx
     · obtain ⟨w, _, hx⟩ := bind_ok.mp hx
-      obtain ⟨u, _, hx⟩ := bind_ok.mp hx
+      simp only at hx
       split at hx
-      · cases hx; exact hi
       · cases hx; exact inv_of_eq hi rfl rfl
+      · cases hx
   case tapp a b =>
     obtain ⟨x, hx, hs⟩ := bind_ok.mp hs
     cases hs
